@@ -60,6 +60,19 @@ type sUDP struct {
 	client *net.UDPConn
 }
 
+// newUDPListenerClosed: an accepted connection whose listener has been closed; the connection stays usable (the shared
+// socket lives until the last connection is closed) and its deadlines must keep working.
+func newUDPListenerClosed() (*sUDP, error) {
+	s, err := newUDP()
+	if err != nil {
+		return nil, err
+	}
+	if err := s.l.Close(); err != nil {
+		return nil, err
+	}
+	return s, nil
+}
+
 func newUDP() (*sUDP, error) {
 	l, err := udp.Listen("udp", &net.UDPAddr{IP: net.IPv4(127, 0, 0, 1)})
 	if err != nil {
@@ -225,6 +238,8 @@ func newSubject(name string) (subject, error) {
 		return &sDpipe{a, b}, nil
 	case "udp":
 		return newUDP()
+	case "udp-lclosed":
+		return newUDPListenerClosed()
 	case "vnet":
 		return newVnet()
 	case "bridge":
@@ -610,7 +625,7 @@ func main() {
 	flag.Parse()
 	_ = nshard
 	r := res.New("C10")
-	r.Rule = "scripts over {Set zero, Set past, Set near(+2..20ms), Set far(+1h), Idle 275ms, Deliver, Read, Park-then-{past,near,deliver,near+zero+deliver,far+deliver}} on five subjects (packetio.Buffer, dpipe, udp.Conn over loopback, vnet UDPConn through a router, Bridge endpoint with a Tick loop); oracle: timeout legal iff a non-zero deadline in force during the read had passed; data illegal iff the deadline had observably passed before the call (set in the past, or >=200ms ago with a canary timer fired); a read that must be released (confirmed data / deadline passed >1s ago + canary) and is parked in the subject's Read (3 samples) is a violation; distinct = (subject, deadline kind, data pending, outcome) cells"
+	r.Rule = "scripts over {Set zero, Set past, Set near(+2..20ms), Set far(+1h), Idle 275ms, Deliver, Read, Park-then-{past,near,deliver,near+zero+deliver,far+deliver}} on six subjects (packetio.Buffer, dpipe, udp.Conn over loopback, udp.Conn whose listener has been closed, vnet UDPConn through a router, Bridge endpoint with a Tick loop); oracle: timeout legal iff a non-zero deadline in force during the read had passed; data illegal iff the deadline had observably passed before the call (set in the past, or >=200ms ago with a canary timer fired); a read that must be released (confirmed data / deadline passed >1s ago + canary) and is parked in the subject's Read (3 samples) is a violation; distinct = (subject, deadline kind, data pending, outcome) cells"
 	r.Assumptions = []string{"interval reasoning on stamps taken before the call and after the return; scheduling delay can only make a legal timeout look later, never earlier", "reads that start within 200ms after a near deadline are unconstrained (expiry is delivered by a runtime timer)"}
 	if *replay != "" {
 		b, _ := os.ReadFile(*replay)
@@ -634,7 +649,7 @@ func main() {
 	if *tier == "thorough" {
 		n = 240
 	}
-	subjects := []string{"buffer", "dpipe", "udp", "vnet", "bridge"}
+	subjects := []string{"buffer", "dpipe", "udp", "udp-lclosed", "vnet", "bridge"}
 	rng := rand.New(rand.NewSource(*seed*811 + int64(*shard)*53 + 29))
 	var mu sync.Mutex
 	seen := map[string]int{}
